@@ -155,9 +155,11 @@ class XmlConfigFormat(ConfigFormat):
         :param ele: XML element to pretty print
         :returns: the pretty printed XML element
         """
-        rough_string = ET.tostring(ele, "utf-8")
+        # A carriage return must be written as a character reference: an XML parser turns a literal
+        # one into a line feed (end-of-line normalisation) and the value would not load back.
+        rough_string = ET.tostring(ele, "utf-8").replace(b"\r", b"&#13;")
         reparsed = minidom.parseString(rough_string)
-        return reparsed.toprettyxml(indent="  ").encode()
+        return reparsed.toprettyxml(indent="  ").replace("\r", "&#13;").encode()
 
     def dumps(self, config: Config, tree: dict) -> bytes:
         """
